@@ -85,11 +85,29 @@ class Env:
         return None
 
 
+BOOL_WORDS = {"true", "false", "yes", "no"}
+HELPERS: Dict[str, ast.AST] = {}   # module-level functions of dosini.py (filled by run)
+
+
+def helper_is_bool_speller(f: ast.AST) -> bool:
+    """A helper that normalises the spelling of boolean constants: it tests the (lower-cased) text for membership in a constant
+    collection of boolean words and returns a .lower() of it under that test."""
+    consts = [n for n in ast.walk(f) if isinstance(n, ast.Compare) and len(n.ops) == 1 and isinstance(n.ops[0], ast.In)
+              and isinstance(n.comparators[0], (ast.Tuple, ast.List, ast.Set))
+              and {e.value for e in n.comparators[0].elts if isinstance(e, ast.Constant)} >= {"true", "false"}]
+    lowers = [n for n in ast.walk(f) if isinstance(n, ast.Return) and n.value is not None and any(
+        isinstance(c, ast.Call) and last_attr(c) == "lower" for c in ast.walk(n.value))]
+    return bool(consts) and bool(lowers)
+
+
 def conv_kind_of_writer(value_expr: ast.AST) -> str:
     s = source.src(value_expr)
     if ".join(" in s:
         return "list"
     if s.endswith(".lower()") and "str(" in s:
+        return "bool"
+    if isinstance(value_expr, ast.Call) and isinstance(value_expr.func, ast.Name) and value_expr.func.id in HELPERS \
+            and helper_is_bool_speller(HELPERS[value_expr.func.id]):
         return "bool"
     if s.startswith("str("):
         return "num"
@@ -431,6 +449,141 @@ def class_set(cls: ast.ClassDef, name: str) -> Optional[Set[str]]:
     return None
 
 
+def check_static_tables(ctx, m, cls) -> None:
+    from vlib import state
+    rule = "C19.R7-static-option-tables"
+    consts = state.class_mutable_constants(cls)
+    ctx.require({"_known_flowir", "_translate_map"} <= consts or "_translate_map" in consts,
+                "anchor missing: Dosini._translate_map / _known_flowir are no longer class-level displays")
+    tables = {c for c in consts if c in ("_known_flowir", "_translate_map")} | {c for c in consts if "known" in c.lower() or "translate" in c.lower()}
+    # accessors: methods of Dosini that return something built from a table
+    accessors = []
+    for q, f in m.functions.items():
+        if not q.startswith("Dosini.") or q.count(".") != 1:
+            continue
+        rets = [r for r in source.walk_own(f) if isinstance(r, ast.Return) and r.value is not None]
+        reads_table = any(isinstance(x, ast.Attribute) and x.attr in tables for x in ast.walk(f))
+        small = sum(1 for _ in ast.walk(f)) < 120
+        if rets and reads_table and small:
+            accessors.append((q, f))
+    ctx.floor(rule, len(accessors), 2, "accessors of the class-level option tables")
+    for q, f in accessors:
+        ctx.analysed(f)
+        eff = state.nonlocal_effects(f)
+        ctx.ob(rule, eff[0] if eff else f, not eff,
+               "%s keeps no state" % q if not eff else
+               "%s stores state on the class (%s): what it returns is then shared between calls; validate_component extends the "
+               "returned list with the backend's option names (sim_* for the simulator), after which parse_component removes those "
+               "names from every component's variables although no branch files them - the variables are lost on reload, for "
+               "every later load in the process" % (q, short(eff[0], 70)), construct="%s is stateless" % q)
+        stale = state.stale_returns(f)
+        ctx.ob(rule, stale[0][0] if stale else f, not stale,
+               "%s returns a fresh object on every call" % q if not stale else
+               "%s can return an object that outlives the call (%s): a caller that extends it changes the table for every later caller"
+               % (q, stale[0][1]), construct="%s returns a fresh object" % q)
+    n_fn = 0
+    hits = []
+    for q, f in m.functions.items():
+        if not any(isinstance(x, ast.Attribute) and x.attr in consts for x in ast.walk(f)):
+            continue
+        n_fn += 1
+        for (node, cname, how) in state.shared_constant_mutations(f, consts, {"Dosini"}):
+            if cname.startswith("_suppressed"):
+                continue
+            hits.append((q, node, cname, how))
+    for (q, node, cname, how) in hits:
+        ctx.ob(rule, node, False, "%s mutates the class-level table Dosini.%s in place (%s)" % (q, cname, how),
+               construct="%s: in-place mutation of Dosini.%s" % (q, cname))
+    if not hits:
+        ctx.ob(rule, cls, True, "none of the %d functions reading a class-level table of Dosini mutates it in place" % n_fn,
+               construct="class-level tables of Dosini are never mutated in place")
+
+
+CASE_METHODS = {"lower", "upper", "title", "capitalize", "swapcase", "casefold"}
+
+
+def check_writer_keeps_text(ctx, m, wt) -> None:
+    from vlib.cfg import CFG
+    rule = "C19.R8-writer-keeps-text"
+
+    def is_bool_word_test(t: ast.AST) -> bool:
+        return isinstance(t, ast.Compare) and len(t.ops) == 1 and isinstance(t.ops[0], ast.In) \
+            and isinstance(t.comparators[0], (ast.Tuple, ast.List, ast.Set)) and t.comparators[0].elts \
+            and all(isinstance(e, ast.Constant) and isinstance(e.value, str) and e.value.lower() in BOOL_WORDS for e in t.comparators[0].elts)
+
+    def unguarded_in_expr(e: ast.AST) -> List[ast.AST]:
+        """case-changing calls in an expression that are not confined to the true arm of `<..> in (<boolean words>)`"""
+        out: List[ast.AST] = []
+
+        def walk(x: ast.AST, guarded: bool) -> None:
+            if isinstance(x, ast.IfExp):
+                walk(x.test, True)      # inside a test nothing is written
+                walk(x.body, guarded or is_bool_word_test(x.test))
+                walk(x.orelse, guarded)
+                return
+            if isinstance(x, ast.Compare) and is_bool_word_test(x):
+                return
+            if isinstance(x, ast.Call) and isinstance(x.func, ast.Attribute) and x.func.attr in CASE_METHODS and not guarded:
+                out.append(x)
+            for ch in ast.iter_child_nodes(x):
+                walk(ch, guarded)
+        walk(e, False)
+        return out
+
+    def unguarded_in_function(f: ast.AST) -> List[ast.AST]:
+        cfg = CFG(f)
+        tests = match.test_nodes(cfg, lambda t: "T" if is_bool_word_test(t) else None)
+        out: List[ast.AST] = []
+        for n in cfg.nodes:
+            if n.kind != "stmt" or n.ast is None or isinstance(n.ast, (ast.FunctionDef, ast.ClassDef)):
+                continue
+            calls = unguarded_in_expr(n.ast)
+            if calls and not (tests and match.only_via_edges(cfg, n, tests)):
+                # assignments to a local that is only tested are harmless; only written/returned text matters
+                if isinstance(n.ast, ast.Return) or (isinstance(n.ast, ast.Assign) and any(
+                        isinstance(r, ast.Return) and r.value is not None and any(
+                            isinstance(t, ast.Name) and t.id in source.names_in(r.value) for t in n.ast.targets)
+                        and not (tests and match.only_via_edges(cfg, rn, tests))
+                        for rn in cfg.nodes if rn.kind == "stmt" and isinstance(rn.ast, ast.Return) for r in [rn.ast])):
+                    out.extend(calls)
+        return out
+    seen = set()
+    n = 0
+    helpers_used: Set[str] = set()
+    for path, entries in sorted(wt.items()):
+        for (dk, kind, node) in entries:
+            if isinstance(node, ast.Name):
+                defs = [f for q, wf in m.functions.items() if q.startswith("Dosini._comp_") and q.count(".") == 1
+                        for f in wf.body if isinstance(f, ast.FunctionDef) and f.name == node.id
+                        and wf.lineno <= node.lineno <= (wf.end_lineno or 10 ** 9)]
+                if not defs:
+                    continue
+                node = defs[0]
+            if id(node) in seen or not isinstance(node, (ast.Lambda, ast.FunctionDef)):
+                continue
+            seen.add(id(node))
+            n += 1
+            bad = unguarded_in_expr(node.body) if isinstance(node, ast.Lambda) else unguarded_in_function(node)
+            for c in ast.walk(node):
+                if isinstance(c, ast.Call) and isinstance(c.func, ast.Name) and c.func.id in HELPERS:
+                    helpers_used.add(c.func.id)
+            ctx.ob(rule, bad[0] if bad else node, not bad,
+                   "the converter of %s writes the text as it is (boolean constants apart)" % "/".join(path) if not bad else
+                   "the converter of %s changes the case of whatever it writes (%s): '%%(DoAggregate)s' is written as '%%(doaggregate)s' "
+                   "and refers to an unknown variable after reload" % ("/".join(path), short(bad[0], 40)),
+                   construct="converter %s -> %s keeps the text" % ("/".join(path), dk))
+    for h in sorted(helpers_used):
+        f = HELPERS[h]
+        ctx.analysed(f)
+        bad = unguarded_in_function(f)
+        n += 1
+        ctx.ob(rule, bad[0] if bad else f, not bad,
+               "%s changes the case of boolean constants only" % h if not bad else
+               "%s returns case-changed text for values that are not boolean constants (%s)" % (h, short(bad[0], 40)),
+               construct="helper %s keeps the text" % h)
+    ctx.floor(rule, n, 15, "writer converters and their helpers")
+
+
 def run(ctx) -> None:
     ctx.explanation = (
         "Literal-table agreement between the DOSINI writers and the reader: every option the dumper writes under key k "
@@ -446,9 +599,17 @@ def run(ctx) -> None:
     ctx.rule("C19.R6-parser-is-value-transparent", "the ConfigParser subclass used for writing and reading does not transform values "
              "or keys on the way in: no inline-comment stripping, raw (un-interpolated) reads, case-preserving option names - the "
              "writers emit values verbatim and the format has no escaping")
+    ctx.rule("C19.R7-static-option-tables", "the set of known option names the reader files away is the static table: the accessors of the "
+             "class-level tables (known_flowir_options, dosini_to_flowir_translate_map) keep no state and return a fresh object on "
+             "every call, and no function of dosini.py mutates a class-level table in place (callers extend the returned list with "
+             "backend-specific names; a shared list would make the reader swallow those names as options without a branch)")
+    ctx.rule("C19.R8-writer-keeps-text", "a writer converter changes the case of the text it writes only when that text is one of the boolean "
+             "constants: anything else may be a %(Reference)s to a (case-sensitive) variable name")
     ctx.rule("C19.R4-reader-without-writer", "options parsed but never written are exactly the frozen list")
 
     m = ctx.repo.module(DOSINI)
+    HELPERS.clear()
+    HELPERS.update({q: f for q, f in m.functions.items() if "." not in q})
     cls = m.cls("Dosini")
     translate = class_dict(cls, "_translate_map")
     known = class_set(cls, "_known_flowir")
@@ -458,6 +619,7 @@ def run(ctx) -> None:
     ctx.ob("C19.R1-writer-reader-agreement", kfo, ok, "known options = _known_flowir + keys of _translate_map" if ok else
            "known_flowir_options is no longer the union of _known_flowir and the translate map keys")
     all_known = set(known) | set(translate.keys())
+    check_static_tables(ctx, m, cls)
     tmap = {k: v for k, v in translate.items() if v is not None}
 
     wt = extract_writer_table(ctx, m)
@@ -521,6 +683,7 @@ def run(ctx) -> None:
                    "the converter of %s omits '%s' depending on the value (%s): a legitimate falsy value (0, False, '', []) is "
                    "not written and the reloaded component falls back to the default" % ("/".join(path), dk, short(bad[0], 60)),
                    construct="converter %s -> %s is total" % ("/".join(path), dk))
+    check_writer_keeps_text(ctx, m, wt)
     tdd = m.func("Dosini._translate_dict_to_dict")
     ctx.analysed(tdd)
     filt = [c for c in ast.walk(tdd) if isinstance(c, ast.DictComp) and any(g.ifs for g in c.generators)]
@@ -548,18 +711,27 @@ def run(ctx) -> None:
     pinit = m.func("FlowConfigParser.__init__")
     ctx.analysed(pinit)
     set_keys = []
+    interp_off: List[ast.AST] = []
     for n in ast.walk(pinit):
         if isinstance(n, ast.Assign):
             for t in n.targets:
                 if isinstance(t, ast.Subscript) and isinstance(t.slice, ast.Constant) and t.slice.value in TRANSFORMING:
-                    set_keys.append((t.slice.value, n))
+                    if t.slice.value == "interpolation" and isinstance(n.value, ast.Constant) and n.value.value is None:
+                        interp_off.append(n)
+                    else:
+                        set_keys.append((t.slice.value, n))
         if isinstance(n, ast.Call):
             for k in n.keywords:
                 if k.arg in TRANSFORMING and not (k.arg == "interpolation" and isinstance(k.value, ast.Constant) and k.value.value is None):
                     set_keys.append((k.arg, n))
+                elif k.arg == "interpolation":
+                    interp_off.append(n)
             if isinstance(n.func, ast.Attribute) and n.func.attr == "setdefault" and n.args and isinstance(n.args[0], ast.Constant) \
                     and n.args[0].value in TRANSFORMING:
-                set_keys.append((n.args[0].value, n))
+                if n.args[0].value == "interpolation" and len(n.args) > 1 and isinstance(n.args[1], ast.Constant) and n.args[1].value is None:
+                    interp_off.append(n)
+                else:
+                    set_keys.append((n.args[0].value, n))
     scan = ctx.repo.modules() if ctx.tier == "thorough" else [m, ctx.repo.module("python/experiment/model/conf.py")]
     for m_ in scan:
         if "FlowConfigParser(" not in m_.text:
@@ -576,6 +748,12 @@ def run(ctx) -> None:
     if not set_keys:
         ctx.ob("C19.R6-parser-is-value-transparent", pinit, True, "no value-transforming option of configparser is switched on",
                construct="FlowConfigParser.__init__ options")
+    ok = bool(interp_off)
+    ctx.ob("C19.R6-parser-is-value-transparent", interp_off[0] if interp_off else pinit, ok,
+           "configparser's %-interpolation is switched off: values are neither interpolated on read nor validated on write" if ok else
+           "the parser keeps configparser's default %-interpolation: set() validates every value against that syntax, so dumping a "
+           "value with a bare '%' (arguments 'date +%Y') raises ValueError half-way through the dump although the loader, which reads "
+           "raw, accepts such a file", construct="FlowConfigParser.__init__: interpolation=None")
     pget = m.func("FlowConfigParser.get")
     ctx.analysed(pget)
     raw_default = None
